@@ -357,7 +357,7 @@ def c02(run):
     run.assumptions += SCHED_ASSUME
     world_stage(run, "edf-schedules", "systems", "MCSched.tla", "MCSched.cfg",
                 extra=["--families", "edf", "--nsys", _nsys(run, 500, 4000)])
-    _equational(run, "edf_p,edf_np,edf_lp,edf_fnp")
+    _equational(run, "edf_p,edf_np,edf_lp,edf_fnp", scale="3")
 
 
 @check("C03")
